@@ -693,3 +693,250 @@ Lemma mer_edges_length u a s : length (mer_edges u a s) = length (dot_edges u a 
 Proof.
   pose proof (f_equal (@length _) (mer_edges_decode u a s)) as E. now rewrite !map_length in E.
 Qed.
+
+(* ------------------------------------------------------------------ RDF *)
+Lemma mapi_cat_in {X Y} (g : nat -> X -> list Y) : forall l i0 y,
+  In y (mapi_cat g l i0) <-> exists k x, nth_error l k = Some x /\ In y (g (i0 + k) x).
+Proof.
+  induction l as [|x l IH]; intros i0 y; cbn [mapi_cat].
+  - split; [intros []|]. intros [k [x [H _]]]. destruct k; discriminate.
+  - rewrite in_app_iff, IH. split.
+    + intros [H|[k [x' [Hk H]]]].
+      * exists 0, x. rewrite Nat.add_0_r. now split.
+      * exists (S k), x'. rewrite Nat.add_succ_r. now split.
+    + intros [[|k] [x' [Hk H]]].
+      * cbn in Hk. injection Hk as <-. rewrite Nat.add_0_r in H. now left.
+      * right. exists k, x'. rewrite Nat.add_succ_r in H. now split.
+Qed.
+
+Lemma rdf_children_unfold fx pg t :
+  rdf_children fx pg t
+  = mapi_cat (fun i c => rdf_node fx pg c (Some i) ++ rdf_children fx (Some (RLit (rdid c))) c) (rch t) 0.
+Proof. destruct t; reflexivity. Qed.
+
+Definition lit (n : rt) : rnode := RLit (rdid n).
+
+(* every triple comes from one _add_child_node call: for a child of the start
+   node with the start node's graph node as parent, for a deeper node with its
+   parent's Literal(data_id) *)
+Lemma rdf_children_in fx : forall t og tr,
+  In tr (rdf_children fx og t) <->
+  (exists i c, nth_error (rch t) i = Some c /\ In tr (rdf_node fx og c (Some i))) \/
+  (exists c0 p i c, In c0 (rch t) /\ In p (pre c0) /\ nth_error (rch p) i = Some c /\
+                    In tr (rdf_node fx (Some (lit p)) c (Some i))).
+Proof.
+  induction t as [id inf ch IH] using rt_ind'. intros og tr.
+  rewrite rdf_children_unfold, mapi_cat_in. cbn [rch Nat.add]. rewrite Forall_forall in IH. split.
+  - intros [k [c [Hk H]]]. apply in_app_or in H. destruct H as [H|H].
+    + left. exists k, c. now split.
+    + right. pose proof (nth_error_In _ _ Hk) as Hc. apply (IH c Hc) in H. destruct H as [[i [c' [Hi H]]]|[c0 [p [i [c' [Hc0 [Hp [Hi H]]]]]]]].
+      * exists c, c, i, c'. repeat split; try assumption. apply pre_in_self.
+      * exists c, p, i, c'. repeat split; try assumption. rewrite pre_unfold. right. apply in_flat_map. exists c0. now split.
+  - intros [[i [c [Hi H]]]|[c0 [p [i [c [Hc0 [Hp [Hi H]]]]]]]].
+    + exists i, c. split; [exact Hi|]. apply in_or_app. now left.
+    + destruct (In_nth_error _ _ Hc0) as [k Hk]. exists k, c0. split; [exact Hk|]. apply in_or_app. right.
+      apply (IH c0 Hc0). rewrite pre_unfold in Hp. destruct Hp as [<-|Hp].
+      * left. exists i, c. now split.
+      * right. apply in_flat_map in Hp. destruct Hp as [c1 [Hc1 Hp]]. exists c1, p, i, c. now repeat split.
+Qed.
+
+(* what one _add_child_node call contributes *)
+Lemma rdf_node_has_child pg n idx x y :
+  In (THasChild x y) (rdf_node true pg n idx) <-> pg = Some x /\ y = lit n.
+Proof.
+  unfold rdf_node, lit. rewrite !in_app_iff. cbn [orb].
+  destruct pg as [g|], (rkind n) as [k|], idx as [i|]; cbn [In];
+    (split; [intros H; decompose [or] H; try discriminate; try contradiction;
+             match goal with E : THasChild _ _ = THasChild _ _ |- _ => injection E as -> ->; split; reflexivity end
+            | intros [E ->]; try discriminate; injection E as ->; left; left; reflexivity ]).
+Qed.
+
+Lemma rdf_node_name fx pg n idx g nm :
+  In (TName g nm) (rdf_node fx pg n idx) <-> g = lit n /\ nm = rname n.
+Proof.
+  unfold rdf_node, lit. rewrite !in_app_iff.
+  destruct pg as [p|]; [destruct (fx || rnode_truthy p)|]; destruct (rkind n) as [k|], idx as [i|]; cbn [In];
+    (split; [intros H; decompose [or] H; try discriminate; try contradiction;
+             match goal with E : TName _ _ = TName _ _ |- _ => injection E as <- <-; split; reflexivity end
+            | intros [-> ->]; tauto ]).
+Qed.
+
+Lemma rdf_node_kind fx pg n idx g k :
+  In (TKind g k) (rdf_node fx pg n idx) <-> g = lit n /\ rkind n = Some k.
+Proof.
+  unfold rdf_node, lit. rewrite !in_app_iff.
+  destruct pg as [p|]; [destruct (fx || rnode_truthy p)|]; destruct (rkind n) as [k'|], idx as [i|]; cbn [In];
+    (split; [intros H; decompose [or] H; try discriminate; try contradiction;
+             match goal with E : TKind _ _ = TKind _ _ |- _ => injection E as <- <-; split; reflexivity end
+            | intros [-> E]; try discriminate; injection E as ->; tauto ]).
+Qed.
+
+Lemma rdf_node_index fx pg n idx g i :
+  In (TIndex g i) (rdf_node fx pg n idx) <-> g = lit n /\ idx = Some i.
+Proof.
+  unfold rdf_node, lit. rewrite !in_app_iff.
+  destruct pg as [p|]; [destruct (fx || rnode_truthy p)|]; destruct (rkind n) as [k'|], idx as [i'|]; cbn [In];
+    (split; [intros H; decompose [or] H; try discriminate; try contradiction;
+             match goal with E : TIndex _ _ = TIndex _ _ |- _ => injection E as <- <-; split; reflexivity end
+            | intros [-> E]; try discriminate; injection E as ->; tauto ]).
+Qed.
+
+Lemma in_pre_f_split (f : list rt) p : In p (pre_f f) <-> exists c0, In c0 f /\ In p (pre c0).
+Proof. apply in_flat_map. Qed.
+
+(* has_child triples = image of the tree edges whose parent is exported *)
+Lemma rdf_children_has_child t og x y :
+  In (THasChild x y) (rdf_children true og t) <->
+  (og = Some x /\ exists c, In c (rch t) /\ y = lit c) \/
+  (exists p c, In p (pre_f (rch t)) /\ In c (rch p) /\ x = lit p /\ y = lit c).
+Proof.
+  rewrite rdf_children_in. split.
+  - intros [[i [c [Hi H]]]|[c0 [p [i [c [Hc0 [Hp [Hi H]]]]]]]]; apply rdf_node_has_child in H; destruct H as [E ->].
+    + left. split; [exact E|]. exists c. split; [now apply nth_error_In in Hi|reflexivity].
+    + right. injection E as <-. exists p, c. split; [apply in_pre_f_split; now exists c0|].
+      split; [now apply nth_error_In in Hi|split; reflexivity].
+  - intros [[E [c [Hc ->]]]|[p [c [Hp [Hc [-> ->]]]]]].
+    + left. destruct (In_nth_error _ _ Hc) as [i Hi]. exists i, c. split; [exact Hi|]. now apply rdf_node_has_child.
+    + right. apply in_pre_f_split in Hp. destruct Hp as [c0 [Hc0 Hp]].
+      destruct (In_nth_error _ _ Hc) as [i Hi]. exists c0, p, i, c. repeat split; try assumption.
+      now apply rdf_node_has_child.
+Qed.
+
+Lemma rdf_of_node_has_child a s x y :
+  In (THasChild x y) (rdf_of_node true a s) <->
+  exists p c, In p (export a s) /\ In c (rch p) /\ x = lit p /\ y = lit c.
+Proof.
+  unfold rdf_of_node. destruct a; cbn [export app].
+  - rewrite in_app_iff, rdf_node_has_child, rdf_children_has_child. split.
+    + intros [[E _]|[[E [c [Hc ->]]]|[p [c [Hp [Hc [-> ->]]]]]]]; [discriminate| |].
+      * injection E as <-. exists s, c. repeat split; [now left|exact Hc].
+      * exists p, c. repeat split; [now right|exact Hc].
+    + intros [p [c [[<-|Hp] [Hc [-> ->]]]]].
+      * right. left. split; [reflexivity|]. now exists c.
+      * right. right. now exists p, c.
+  - rewrite rdf_children_has_child. split.
+    + intros [[E _]|H]; [discriminate|exact H].
+    + intros H. now right.
+Qed.
+
+Lemma rdf_of_tree_has_child tn root x y :
+  In (THasChild x y) (rdf_of_tree true tn root) <->
+  (x = RSys /\ exists c, In c (rch root) /\ y = lit c) \/
+  (exists p c, In p (pre_f (rch root)) /\ In c (rch p) /\ x = lit p /\ y = lit c).
+Proof.
+  unfold rdf_of_tree. cbn [In]. rewrite rdf_children_has_child. split.
+  - intros [E|[[E H]|H]]; [discriminate| |now right]. injection E as <-. now left.
+  - intros [[-> H]|H]; right; [left; now split|now right].
+Qed.
+
+(* attribute triples: one name (kind, index) triple per exported node *)
+Lemma rdf_children_name fx t og g nm :
+  In (TName g nm) (rdf_children fx og t) <-> exists n, In n (pre_f (rch t)) /\ g = lit n /\ nm = rname n.
+Proof.
+  rewrite rdf_children_in. split.
+  - intros [[i [c [Hi H]]]|[c0 [p [i [c [Hc0 [Hp [Hi H]]]]]]]]; apply rdf_node_name in H; destruct H as [-> ->]; exists c.
+    + split; [apply in_pre_f_top; now apply nth_error_In in Hi|split; reflexivity].
+    + split; [|split; reflexivity]. apply (pre_f_child_closed _ p); [apply in_pre_f_split; now exists c0|now apply nth_error_In in Hi].
+  - intros [n [Hn [-> ->]]]. apply in_pre_f_split in Hn. destruct Hn as [c0 [Hc0 Hn]].
+    rewrite pre_unfold in Hn. destruct Hn as [<-|Hn].
+    + left. destruct (In_nth_error _ _ Hc0) as [i Hi]. exists i, c0. split; [exact Hi|]. now apply rdf_node_name.
+    + right. assert (P : exists p, In p (pre c0) /\ In n (rch p)).
+      { clear Hc0. revert Hn. induction c0 as [id inf ch IH] using rt_ind'. cbn [rch]. intros Hn.
+        apply in_flat_map in Hn. destruct Hn as [c1 [Hc1 Hn]]. rewrite pre_unfold in Hn. destruct Hn as [<-|Hn].
+        - exists (T id inf ch). split; [apply pre_in_self|exact Hc1].
+        - rewrite Forall_forall in IH. destruct (IH c1 Hc1 Hn) as [p [Hp Hc]]. exists p. split; [|exact Hc].
+          rewrite pre_unfold. right. apply in_flat_map. exists c1. now split. }
+      destruct P as [p [Hp Hc]]. destruct (In_nth_error _ _ Hc) as [i Hi]. exists c0, p, i, n.
+      repeat split; try assumption. now apply rdf_node_name.
+Qed.
+
+(* every proper descendant has a parent below (or at) the start *)
+Lemma below_has_parent : forall t n, In n (pre_f (rch t)) -> exists p i, In p (pre t) /\ nth_error (rch p) i = Some n.
+Proof.
+  induction t as [id inf ch IH] using rt_ind'. cbn [rch]. intros n Hn.
+  apply in_flat_map in Hn. destruct Hn as [c1 [Hc1 Hn]]. rewrite pre_unfold in Hn. destruct Hn as [<-|Hn].
+  - destruct (In_nth_error _ _ Hc1) as [i Hi]. exists (T id inf ch), i. split; [apply pre_in_self|exact Hi].
+  - rewrite Forall_forall in IH. destruct (IH c1 Hc1 n Hn) as [p [i [Hp Hi]]]. exists p, i. split; [|exact Hi].
+    rewrite pre_unfold. right. apply in_flat_map. exists c1. now split.
+Qed.
+
+Lemma rdf_children_attr fx t og tr (Q : rt -> option nat -> Prop) :
+  (forall pg n idx, In tr (rdf_node fx pg n idx) <-> Q n idx) ->
+  (In tr (rdf_children fx og t) <-> exists p i c, In p (pre t) /\ nth_error (rch p) i = Some c /\ Q c (Some i)).
+Proof.
+  intros HQ. rewrite rdf_children_in. split.
+  - intros [[i [c [Hi H]]]|[c0 [p [i [c [Hc0 [Hp [Hi H]]]]]]]]; apply HQ in H.
+    + exists t, i, c. split; [apply pre_in_self|now split].
+    + exists p, i, c. split; [|now split]. rewrite pre_unfold. right. apply in_pre_f_split. now exists c0.
+  - intros [p [i [c [Hp [Hi H]]]]]. rewrite pre_unfold in Hp. destruct Hp as [<-|Hp].
+    + left. exists i, c. split; [exact Hi|]. now apply HQ.
+    + right. apply in_pre_f_split in Hp. destruct Hp as [c0 [Hc0 Hp]]. exists c0, p, i, c. repeat split; try assumption. now apply HQ.
+Qed.
+
+Lemma rdf_children_index fx t og g i :
+  In (TIndex g i) (rdf_children fx og t) <-> exists p c, In p (pre t) /\ nth_error (rch p) i = Some c /\ g = lit c.
+Proof.
+  rewrite (rdf_children_attr fx t og _ (fun n idx => g = lit n /\ idx = Some i)); [|intros; apply rdf_node_index].
+  split.
+  - intros [p [j [c [Hp [Hj [-> E]]]]]]. injection E as ->. now exists p, c.
+  - intros [p [c [Hp [Hi ->]]]]. exists p, i, c. repeat split; assumption.
+Qed.
+
+Lemma rdf_children_kind fx t og g k :
+  In (TKind g k) (rdf_children fx og t) <-> exists n, In n (pre_f (rch t)) /\ g = lit n /\ rkind n = Some k.
+Proof.
+  rewrite (rdf_children_attr fx t og _ (fun n idx => g = lit n /\ rkind n = Some k)); [|intros; apply rdf_node_kind].
+  split.
+  - intros [p [j [c [Hp [Hj [-> E]]]]]]. exists c. split; [|now split].
+    rewrite <- desc_p_snd. change c with (snd (p, c)). apply in_map. apply desc_p_in. split; [exact Hp|now apply nth_error_In in Hj].
+  - intros [n [Hn [-> E]]]. destruct (below_has_parent t n Hn) as [p [i [Hp Hi]]]. exists p, i, n. repeat split; assumption.
+Qed.
+
+Lemma rdf_of_node_name fx a s g nm :
+  In (TName g nm) (rdf_of_node fx a s) <-> exists n, In n (export a s) /\ g = lit n /\ nm = rname n.
+Proof.
+  unfold rdf_of_node. destruct a; cbn [export app].
+  - rewrite in_app_iff, rdf_node_name, rdf_children_name. split.
+    + intros [[-> ->]|[n [Hn H]]]; [exists s; split; [now left|split; reflexivity]|exists n; split; [now right|exact H]].
+    + intros [n [[<-|Hn] H]]; [now left|right; now exists n].
+  - apply rdf_children_name.
+Qed.
+
+Lemma rdf_of_node_kind fx a s g k :
+  In (TKind g k) (rdf_of_node fx a s) <-> exists n, In n (export a s) /\ g = lit n /\ rkind n = Some k.
+Proof.
+  unfold rdf_of_node. destruct a; cbn [export app].
+  - rewrite in_app_iff, rdf_node_kind, rdf_children_kind. split.
+    + intros [[-> E]|[n [Hn H]]]; [exists s; split; [now left|now split]|exists n; split; [now right|exact H]].
+    + intros [n [[<-|Hn] H]]; [now left|right; now exists n].
+  - apply rdf_children_kind.
+Qed.
+
+Lemma rdf_of_node_index fx a s g i :
+  In (TIndex g i) (rdf_of_node fx a s) <-> exists p c, In p (pre s) /\ nth_error (rch p) i = Some c /\ g = lit c.
+Proof.
+  unfold rdf_of_node. destruct a.
+  - rewrite in_app_iff, rdf_node_index, rdf_children_index. split; [intros [[_ E]|H]; [discriminate|exact H]|intros H; now right].
+  - apply rdf_children_index.
+Qed.
+
+Lemma rdf_of_tree_name fx tn root g nm :
+  In (TName g nm) (rdf_of_tree fx tn root) <->
+  (g = RSys /\ nm = tn) \/ exists n, In n (pre_f (rch root)) /\ g = lit n /\ nm = rname n.
+Proof.
+  unfold rdf_of_tree. cbn [In]. rewrite rdf_children_name. split.
+  - intros [E|H]; [injection E as <- <-; now left|now right].
+  - intros [[-> ->]|H]; [now left|now right].
+Qed.
+
+Lemma rdf_of_tree_kind fx tn root g k :
+  In (TKind g k) (rdf_of_tree fx tn root) <-> exists n, In n (pre_f (rch root)) /\ g = lit n /\ rkind n = Some k.
+Proof.
+  unfold rdf_of_tree. cbn [In]. rewrite rdf_children_kind. split; [intros [E|H]; [discriminate|exact H]|intros H; now right].
+Qed.
+
+Lemma rdf_of_tree_index fx tn root g i :
+  In (TIndex g i) (rdf_of_tree fx tn root) <-> exists p c, In p (pre root) /\ nth_error (rch p) i = Some c /\ g = lit c.
+Proof.
+  unfold rdf_of_tree. cbn [In]. rewrite rdf_children_index. split; [intros [E|H]; [discriminate|exact H]|intros H; now right].
+Qed.
